@@ -39,6 +39,15 @@ enum C05E { A = 1, B = 2 }
 union C05U { Ok { v: int }, Err { msg: string } }
 ''' % SENTINEL
 
+FNSIG_DECLS = ("fn c05_two_is(a: int, b: string) -> int {\n    return a\n}\nshadow c05_two_is { assert true }\n"
+               "fn c05_two_si(a: string, b: int) -> int {\n    return b\n}\nshadow c05_two_si { assert true }\n"
+               "fn c05_one_s(a: string) -> int {\n    return 1\n}\nshadow c05_one_s { assert true }\n"
+               "fn c05_one_i(a: int) -> int {\n    return a\n}\nshadow c05_one_i { assert true }\n"
+               "fn c05_one_b(a: bool) -> int {\n    return 2\n}\nshadow c05_one_b { assert true }\n"
+               "fn c05_ret_s(a: int, b: int) -> string {\n    return \"x\"\n}\nshadow c05_ret_s { assert true }\n"
+               "fn c05_apply2(g: fn(int, int) -> int, v: int) -> int {\n    return (g v v)\n}\nshadow c05_apply2 { assert true }\n"
+               "fn c05_apply1(g: fn(int) -> int, v: int) -> int {\n    return (g v)\n}\nshadow c05_apply1 { assert true }\n")
+
 CATALOGUE = {
     "operand_type": [
         ("int_plus_string", ['let c05_a: int = (+ 1 "s")'], ""),
@@ -104,6 +113,20 @@ CATALOGUE = {
         ("unknown_enum_variant", ["let c05_e: C05E = C05E.Nope", "(println (== c05_e C05E.A))"], ""),
         ("unknown_union_variant", ["let c05_u: C05U = C05U.Nope { v: 1 }"], ""),
         ("field_of_other_variant", ["let c05_u: C05U = C05U.Ok { v: 1 }", "match c05_u {", "    Ok(o) => { (println o.msg) }", "    Err(e) => { (println e.msg) }", "}"], ""),
+    ],
+    "fn_signature": [
+        (name, stmts, FNSIG_DECLS) for (name, stmts) in [
+            ("arg_last_param_differs", ["(println (c05_apply2 c05_two_is 1))"]),
+            ("arg_first_param_differs", ["(println (c05_apply2 c05_two_si 1))"]),
+            ("arg_only_param_differs", ["(println (c05_apply1 c05_one_s 1))"]),
+            ("arg_return_differs", ["(println (c05_apply2 c05_ret_s 1))"]),
+            ("arg_arity_differs", ["(println (c05_apply2 c05_one_i 1))"]),
+            ("let_last_param_differs", ["let c05_h: fn(int, int) -> int = c05_two_is"]),
+            ("let_only_param_differs", ["let c05_h: fn(int) -> int = c05_one_s"]),
+            ("let_return_differs", ["let c05_h: fn(int, int) -> int = c05_ret_s"]),
+            ("let_arity_differs", ["let c05_h: fn(int, int) -> int = c05_one_i"]),
+            ("arg_bool_for_int_param", ["(println (c05_apply1 c05_one_b 1))"]),
+        ]
     ],
     "consumed_resource": [
         ("use_after_move", ["let c05_h: C05H = unsafe { (c05_open 1) }", "unsafe { (c05_close c05_h) }", "unsafe { (c05_close c05_h) }"],
